@@ -1930,6 +1930,7 @@ def check_dump(d, units, ff, parsed, timestep=0):
         ck.fail('column', f'column names are not distinct: {cols}')
     rowset = sample_rows(n)
     rowset = None if rowset is None else set(rowset)
+    srel = None
     idcol = cols.index('id') if 'id' in cols else None
     for k, row in enumerate(parsed['rows'][:n]):
         if rowset is not None and k not in rowset:
@@ -1969,6 +1970,17 @@ def check_dump(d, units, ff, parsed, timestep=0):
             except KeyError:
                 continue
             if kind == 'scaled':
+                # the box-relative coordinate itself (statement: dump_scaled_cells): printed precision of that number
+                # plus the rounding of (pos - origin)·V⁻¹, which is relative to |pos|·|V⁻¹|
+                if prop == 'pos':
+                    if srel is None:
+                        vi = inv3(V)
+                        srel = Fraction(magnitude(d)) * max(abs(x) for r in vi for x in r)
+                    sw = rel_of(P[k], V, O)[comp]
+                    tol = quantum_of(ff, sw) + 256 * EPS * (srel + abs(sw))
+                    if abs(v - sw) > tol:
+                        ck.fail(c, f'{c}[{k}]: file says {float(v)!r}, the box-relative coordinate is {float(sw)!r} '
+                                   f'(allowed difference {float(tol):.3g})')
                 continue
             fac = oracle_factor(units, kind)
             if fac == 'undefined':
@@ -2942,6 +2954,12 @@ def sized_desc(spec):
     xy, xz, yz = [(0.0, 0.0, 0.0), (L / 8, -L / 4, L / 8), (0.0, 0.0, -3 * L / 8)][tri]
     vects = np.array([[L, 0.0, 0.0], [xy, L, 0.0], [xz, yz, L]])
     origin = np.array([(seed % 5) - 2.0, 0.0, (seed % 7) * 0.5])
+    if spec.get('jitter'):
+        # no exact arithmetic: sites displaced by up to 0.3, cell stretched by a factor that is not a dyadic number
+        # (numbers that single precision or a shortcut in the arithmetic does not reproduce)
+        pos = pos + rs.uniform(-0.3, 0.3, size=pos.shape)
+        vects = vects * 1.0173
+        origin = origin + rs.uniform(-0.5, 0.5, size=3)
     # the sites are relative coordinates of an orthogonal grid; in the tilted cell use them as box-relative ones
     pos = (pos / L) @ vects + origin
     pbc = [bool((seed >> i) & 1) for i in range(3)] if seed % 4 else [True, True, True]
@@ -2962,9 +2980,12 @@ def sized_desc(spec):
             props[name] = (True, (), (1 + rs.randint(0, 50, size=(n, 1))).tolist())
         else:
             nc = 3 if name in ('velocity', 'force') else 1
-            props[name] = (False, () if nc == 1 else (3,), (rs.randint(-128, 129, size=(n, nc)) / 16).tolist())
+            vals = rs.randint(-128, 129, size=(n, nc)) / 16
+            if spec.get('jitter'):
+                vals = vals + rs.uniform(-0.03, 0.03, size=vals.shape)
+            props[name] = (False, () if nc == 1 else (3,), vals.tolist())
     d = {'pbc': pbc, 'vects': vects.tolist(), 'origin': origin.tolist(), 'atype': atype.tolist(), 'natypes': int(max(atype.max(), ntypes)),
-         'pos': pos.tolist(), 'props': props, 'symbols': None, 'regime': 'grid'}
+         'pos': pos.tolist(), 'props': props, 'symbols': None, 'regime': 'generic' if spec.get('jitter') else 'grid'}
     if spec.get('idt'):
         d['idt'] = dict(spec['idt'])
     return d
@@ -2973,7 +2994,7 @@ def sized_desc(spec):
 def sized_case(rng, kind, n):
     """one writer on a system of exactly n atoms with few properties."""
     seed = rng.randint(1, 10 ** 6)
-    ff = rng.choice(['f5', 'f3', 'f8', 'f13', 'e8'])
+    ff = rng.choice(['f5', 'f3', 'f8', 'f13', 'e8']) if n <= 20000 else rng.choice(['f13', 'f8', 'e13', 'f13', 'e8'])
     if kind == 'data':
         style = rng.choice(['atomic', 'atomic', 'charge', 'molecular'])
         props = [p[0] for p in needed_props(style, rng.random() < 0.4)]
@@ -2986,7 +3007,10 @@ def sized_case(rng, kind, n):
         spec = {'n': n, 'seed': seed, 'props': [p for p in ('velocity', 'charge') if rng.random() < 0.3], 'ntypes': rng.randint(1, 3),
                 'ids': rng.choice([None, None, 'reversed', 'odd'])}
         pn = None
-        if rng.random() < 0.4:
+        if n > 20000:
+            # a large system: every position variant (a size-dependent path of one of them must show)
+            pn = ['atom_id', 'atype', 'pos', 'spos', 'upos', 'supos'] + spec['props']
+        elif rng.random() < 0.4:
             pn = ['atom_id', 'atype'] + rng.sample(['pos', 'spos', 'upos', 'supos'], 2) + spec['props']
         c = {'kind': 'dump', 'units': 'metal', 'ff': ff, 'prop_names': pn, 'explicit': None,
              'timestep': rng.choice([0, n, 2 * n + 1]), 'out': None, 'pre': False, 'wu': None}
@@ -3009,6 +3033,7 @@ def sized_case(rng, kind, n):
     p2 = 1
     while 2 * p2 < n:
         p2 *= 2
+    spec['jitter'] = rng.random() < (0.5 if n <= 20000 else 0.85 if n <= 100000 else 1.0)
     spec['out_from'] = rng.choice([0, 0, n - 1, p2, p2 + 1, n // 2, max(n - 98, 0), min(4096, n - 1), min(1000, n - 1)])
     if rng.random() < 0.4:
         spec['idt'] = {'atype': rng.choice(['uint8', 'int16', 'int32', 'uint16', 'uint64'])}
